@@ -582,7 +582,22 @@ func runLCase(c LCase, r *runlog.R) error {
 				}
 			}
 		}
-		if e := checkError(opErr, strings.Join(addr, "."), c.Meta); e != nil {
+		// A nil element of a list that other entries of the input also contribute to by numeric segments
+		// ("l.1": x next to l: [nil]) may be the PADDING nil of such an entry after the index-wise merge of the
+		// entries, not the nil that was written: padding is implied, not loaded, and carries no source (only
+		// loaded values do). The path is demanded, the source is optional there. Nothing is relaxed for values.
+		paddedNil := false
+		if p, _ := parentOf(model, addr); n.K == "nil" && p != nil && p.K == "list" && ((sp != nil && sp.listNodes > 0) || layered) {
+			paddedNil = true
+		}
+		check := func() error {
+			if paddedNil {
+				return checkNamed(opErr, []expect{{strings.Join(addr, "."), tailsFor(c.Meta, false)}})
+			}
+			return checkError(opErr, strings.Join(addr, "."), c.Meta)
+		}
+		r.ClassIf(paddedNil, "nil element of a list whose elements are (also) written by numeric segments or in two inputs: source optional")
+		if e := check(); e != nil {
 			// D58: when the resolution of a dynamic setting fails with an
 			// error that is typed already, CountField handed it out as it was
 			// ("cyclic reference detected for key: '<other member>'",
@@ -639,7 +654,7 @@ func runLCase(c LCase, r *runlog.R) error {
 
 var subLow = runlog.Register(&runlog.Sub[LCase]{
 	Name: "lowlevel",
-	Rule: "random data tree (keys a-d, in 2/3 of the cases also names with %, %d, quotes, braces, blanks, non-ASCII; depth <= 3; strings incl. texts with % and ${...} references that resolve, do not resolve or are cyclic when VarExp is on) normalised with PathSep/MetaData (source names incl. %, quotes, braces)/VarExp; in 40% of the cases the data is re-spelled first (every object/list nested, with its children under dotted keys of the parent - list elements by numeric segments -, or piecewise; composed over all levels), in 20% it is loaded as two inputs one after the other (NewFrom + Merge; entries contributing to the same list stay together). With VarExp 0-3 unresolvable references of a known shape are planted in random objects, with auxiliary settings in other objects: missing variable or missing key below an existing object, index out of range of an existing list, self cycle, cycle of length 2 and 3, reference into a cycle, path through an existing primitive, chain ending in a missing variable, ${x:?message}; plain or inside a splice; a quarter of them under a name with % and a quote. Then 1-6 calls of Bool/Int/Uint/Float/String/Child/Has/Remove/CountField/Set*/SetChild/Unpack on real paths of the tree (planted references three times as often) and on paths extended through primitives, to missing keys and out-of-range indices, with and without idx, with and without a resolver that knows no variable; in a third of the cases edits come first (Remove/Set*/SetChild), mostly the removal of a list element that is not the last one followed by reads of the settings in and below the elements that moved down. Every non-nil error must be a ucfg.Error with Reason and Class. A getter addressing an existing setting it can not convert (container, wrong primitive kind, unparsable string, ${nope} with the resolver, a planted cycle / path through a primitive / error expansion with or without resolver, a planted missing variable with the resolver) must fail; EVERY error of a getter or of CountField that addresses an existing setting (strict walk of the tree: keys of objects, in-range indices of lists) must end in accessing|in field '<full path of the setting that was read>' (source:'<name>') - the source demanded whenever MetaData was given. The tree is a model that follows the edits: a successful Remove of a strictly addressed node deletes it (the following elements of a list move down, so the path demanded is their CURRENT position), a successful Set*/SetChild over a strictly addressed existing node replaces it (stored with the same MetaData); the first successful edit of another kind (creating, padding, through a primitive) ends the path assertions, and after any edit nothing is demanded to fail any more (planted references may mean something else). Non-trivial: at least one error on an address of >= 2 segments or on an unresolvable reference. Distinct: hash of the case.",
+	Rule: "random data tree (keys a-d, in 2/3 of the cases also names with %, %d, quotes, braces, blanks, non-ASCII; depth <= 3; strings incl. texts with % and ${...} references that resolve, do not resolve or are cyclic when VarExp is on) normalised with PathSep/MetaData (source names incl. %, quotes, braces)/VarExp; in 40% of the cases the data is re-spelled first (every object/list nested, with its children under dotted keys of the parent - list elements by numeric segments -, or piecewise; composed over all levels), in 20% it is loaded as two inputs one after the other (NewFrom + Merge; entries contributing to the same list stay together). With VarExp 0-3 unresolvable references of a known shape are planted in random objects, with auxiliary settings in other objects: missing variable or missing key below an existing object, index out of range of an existing list, self cycle, cycle of length 2 and 3, reference into a cycle, path through an existing primitive, chain ending in a missing variable, ${x:?message}; plain or inside a splice; a quarter of them under a name with % and a quote. Then 1-6 calls of Bool/Int/Uint/Float/String/Child/Has/Remove/CountField/Set*/SetChild/Unpack on real paths of the tree (planted references three times as often) and on paths extended through primitives, to missing keys and out-of-range indices, with and without idx, with and without a resolver that knows no variable; in a third of the cases edits come first (Remove/Set*/SetChild), mostly the removal of a list element that is not the last one followed by reads of the settings in and below the elements that moved down. Every non-nil error must be a ucfg.Error with Reason and Class. A getter addressing an existing setting it can not convert (container, wrong primitive kind, unparsable string, ${nope} with the resolver, a planted cycle / path through a primitive / error expansion with or without resolver, a planted missing variable with the resolver) must fail; EVERY error of a getter or of CountField that addresses an existing setting (strict walk of the tree: keys of objects, in-range indices of lists) must end in accessing|in field '<full path of the setting that was read>' (source:'<name>') - the source demanded whenever MetaData was given (optional for a nil element of a list when the data was re-spelled with list elements written by numeric segments or loaded as two inputs: after the index-wise merge of the entries the element may be the padding nil of another entry, which was implied, not loaded). The tree is a model that follows the edits: a successful Remove of a strictly addressed node deletes it (the following elements of a list move down, so the path demanded is their CURRENT position), a successful Set*/SetChild over a strictly addressed existing node replaces it (stored with the same MetaData); the first successful edit of another kind (creating, padding, through a primitive) ends the path assertions, and after any edit nothing is demanded to fail any more (planted references may mean something else). Non-trivial: at least one error on an address of >= 2 segments or on an unresolvable reference. Distinct: hash of the case.",
 	Gen:  genLCase,
 	Run:  runLCase,
 })
